@@ -455,7 +455,7 @@ func putSummary(puts [][]*operation.AnchoredOperation) string {
 var typeRank = map[string]int{"create": 0, "recover": 1, "update": 2, "deactivate": 3}
 
 func TestTransactionsWithFaults(t *testing.T) {
-	ev.Rule(chkTxn, "rapid sequences of 1-8 transactions: valid (files written by the real handler for a generated batch, possibly with repeated suffixes queued), unreadable (malformed anchor string, missing file, corrupt file: junk, gzip stream cut in its data or trailer, wrong CRC / length, truncated second member), duplicate-carrying (stub provider returning one suffix twice), a protocol version the protocol client cannot resolve, a namespace without protocol client, a second registered namespace with its own operation store (runs of equal kinds and versions are frequent); distinct time / number / version / canonical / equivalent references; processed through the real Observer (drawn notification slicing, completion via a sentinel transaction) and directly through TxnProcessor.Process; for each sequence EVERY fault position is enumerated: each CAS read k, each OpStore.Put call k, each unpublished DeleteAll call k, plus the fault-free run; oracle (store-state): the log of successful atomic writes == one write per good, un-faulted transaction, in order, holding exactly the first operation per suffix, each stamped with the transaction's time, number, protocol version, canonical and equivalent references; nothing for bad transactions; non-trivial = a bad transaction followed by a good one, or a fault, or a duplicate suffix")
+	ev.Rule(chkTxn, "rapid sequences of 1-8 transactions: valid (files written by the real handler for a generated batch, possibly with repeated suffixes queued; one batch in thirty holds 101-260 operations for as many DIDs), unreadable (malformed anchor string, missing file, corrupt file: junk, gzip stream cut in its data or trailer, wrong CRC / length, truncated second member), duplicate-carrying (stub provider returning one suffix twice), a protocol version the protocol client cannot resolve, a namespace without protocol client, a second registered namespace with its own operation store (runs of equal kinds and versions are frequent); distinct time / number / version / canonical / equivalent references; processed through the real Observer (drawn notification slicing, completion via a sentinel transaction) and directly through TxnProcessor.Process; for each sequence EVERY fault position is enumerated: each CAS read k, each OpStore.Put call k, each unpublished DeleteAll call k, plus the fault-free run; oracle (store-state): the log of successful atomic writes == one write per good, un-faulted transaction, in order, holding exactly the first operation per suffix, each stamped with the transaction's time, number, protocol version, canonical and equivalent references; nothing for bad transactions; non-trivial = a bad transaction followed by a good one, or a fault, or a duplicate suffix")
 	ev.Rapid(t, chkTxn, 150, 1500, func(t *rapid.T) {
 		code := rapid.SampledFrom([]uint64{asm.SHA256, asm.SHA512}).Draw(t, "hash")
 		c := &Case{Code: code, Files: map[string][]byte{}, MinGenesis: uint64(rapid.SampledFrom([]int{0, 10}).Draw(t, "minGenesis"))}
@@ -479,6 +479,10 @@ func TestTransactionsWithFaults(t *testing.T) {
 			cas := wire.NewMemCAS()
 			v := wire.Build(p, wire.Deps{CAS: cas})
 			batch := gen.Batch(t, code, 6, false, fmt.Sprintf("c15-%d", i))
+			if rapid.IntRange(0, 29).Draw(t, "hugeTransaction") == 0 {
+				// a transaction far beyond hand-written sizes: 101-260 operations for as many DIDs
+				batch = gen.BulkCreates(code, rapid.IntRange(101, 260).Draw(t, "hugeOps"), fmt.Sprintf("c15-%d", i))
+			}
 			var q []*operation.QueuedOperation
 			for _, o := range batch {
 				q = append(q, &operation.QueuedOperation{Type: operation.Type(o.Type), OperationRequest: o.Request, UniqueSuffix: o.Suffix, Namespace: ns, AnchorOrigin: o.QueuedAO})
